@@ -181,6 +181,50 @@ def r1(ctx, F, rule, sfx):
     ctx.check(rule, 'part-records-its-cell-and-position' + sfx, okp, repr(part)[:100], 'Part::new(position, cid, id)', where(ap), key_extra='part')
 
 
+def resolve_by_order(x, oracle, depth=0):
+    """Resolve every ite / min / max / clamp-like atom of the scalar x with `oracle(difference) -> -1 | 0 | +1 | None` (sign of a difference of two
+    scalars under the ordering considered).  A comparison the oracle cannot decide raises AnalysisIncomplete."""
+    if depth > 12:
+        raise AnalysisIncomplete('nesting too deep')
+    x = as_rf(x)
+    for _ in range(32):
+        ats = [a for a in I.atoms_deep(x).values() if a.kind == 'app' and a.name in ('ite', 'min', 'max')]
+        # innermost first: an atom none of whose arguments contains another such atom
+        pick = None
+        for a in ats:
+            inner = False
+            for arg in a.args:
+                if isinstance(arg, RF) and any(b.kind == 'app' and b.name in ('ite', 'min', 'max') for b in I.atoms_deep(arg).values()):
+                    inner = True
+            if not inner:
+                pick = a
+                break
+        if pick is None:
+            if ats:
+                raise AnalysisIncomplete('unresolvable nesting')
+            return x
+        a = pick
+        if a.name in ('min', 'max'):
+            p_, q_ = as_rf(a.args[0]), as_rf(a.args[1])
+            sg = oracle(p_ - q_)
+            if sg is None:
+                raise AnalysisIncomplete('%s(%r, %r)' % (a.name, p_, q_))
+            val = (p_ if sg <= 0 else q_) if a.name == 'min' else (p_ if sg >= 0 else q_)
+        else:
+            cnd, t_, e_ = a.args
+
+            def val_leaf(leaf):
+                if leaf.op != 'cmp':
+                    raise AnalysisIncomplete('condition %r' % (leaf,))
+                sg = oracle(as_rf(leaf.args[1]) - as_rf(leaf.args[2]))
+                if sg is None:
+                    raise AnalysisIncomplete('comparison %r' % (leaf,))
+                return {'<': sg < 0, '<=': sg <= 0, '==': sg == 0, '!=': sg != 0, '>': sg > 0, '>=': sg >= 0}[leaf.args[0]]
+            val = as_rf(t_) if dtab.evaluate(cnd, val_leaf) else as_rf(e_)
+        x = I.subst(x, {a: val})
+    raise AnalysisIncomplete('too many piecewise atoms')
+
+
 def r2(ctx, F, rule, sfx):
     cl = F.body_by_suffix('space::Cell::closest_loc')
     cell = I.St('space::Cell', 'Cell', {'loc': I.sym_vec3('l'), 'width': I.sym_vec3('w')})
@@ -190,8 +234,33 @@ def r2(ctx, F, rule, sfx):
     got = c3(v)
     for c in range(3):
         l, w_, p = RF.sym('l.' + AX[c]), RF.sym('w.' + AX[c]), RF.sym('p.' + AX[c])
-        want = I.ite(I.b_cmp('<=', p, l), l, nf.fn_min(l + w_, p))
-        ctx.check(rule, 'closest-point-is-clamp-%s%s' % (AX[c], sfx), as_rf(got[c]) == want, repr(got[c])[:100], 'clamp(p_%s, loc_%s, loc_%s + width_%s)' % (AX[c], AX[c], AX[c], AX[c]), where(cl), key_extra='clamp:%s' % AX[c])
+        # decided case by case over the five orderings of p against lo = l and hi = l + w (w > 0): in each, every comparison / min / max of the
+        # extracted form is resolved by the ordering and what is left must be the clamp's value there — `>` or `>=`, nested min/max, an if-chain
+        # or f64::clamp are then one and the same function
+        cases = [('p<lo', -1, -1, l, {}), ('p=lo', 0, -1, l, {p: l}), ('lo<p<hi', 1, -1, p, {}), ('p=hi', 1, 0, l + w_, {p: l + w_}), ('p>hi', 1, 1, l + w_, {})]
+        bad = []
+        foreign = sorted(a.name for a in I.atoms_deep(as_rf(got[c])).values() if a.kind == 'sym' and a.name not in ('l.' + AX[c], 'w.' + AX[c], 'p.' + AX[c]))
+        if foreign:
+            ctx.bad(rule, 'closest-point-is-clamp-%s%s' % (AX[c], sfx), 'component %s depends on %s: %s' % (AX[c], foreign, repr(got[c])[:80]), 'clamp(p_%s, loc_%s, loc_%s + width_%s): quantities of this axis only' % (AX[c], AX[c], AX[c], AX[c]), where(cl), key_extra='clamp:%s' % AX[c])
+            continue
+        for name, s_lo, s_hi, want, eq in cases:
+            def oracle(d, s_lo=s_lo, s_hi=s_hi):
+                if d.is_zero():
+                    return 0
+                for base, sg in ((p - l, s_lo), (p - l - w_, s_hi), (w_, 1)):
+                    q = d / base
+                    if q.is_const() and q.const_value() != 0:
+                        return sg * (1 if q.const_value() > 0 else -1)
+                return None
+            try:
+                r = resolve_by_order(as_rf(got[c]), oracle)
+            except AnalysisIncomplete as e:
+                raise AnalysisIncomplete('closest_loc.%s compares quantities other than p, loc and loc + width: %s' % (AX[c], e))
+            sub = {I.single_atom(k): v_ for k, v_ in eq.items()}
+            r2_, w2_ = (I.subst(r, sub), I.subst(want, sub)) if sub else (r, want)
+            if as_rf(r2_) != as_rf(w2_):
+                bad.append('%s -> %r' % (name, r))
+        ctx.check(rule, 'closest-point-is-clamp-%s%s' % (AX[c], sfx), not bad, '; '.join(bad)[:140] or repr(got[c])[:100], 'clamp(p_%s, loc_%s, loc_%s + width_%s) in each of the five orderings' % (AX[c], AX[c], AX[c], AX[c]), where(cl), key_extra='clamp:%s' % AX[c])
     md = F.body_by_suffix('space::Cell::min_distance_squared')
     ip = I.Interp(F, no_inline=[cl['path']])
     v, _ = ip.call_body(md, [ip.ref_to(cell), I.sym_vec3('p')])
